@@ -110,6 +110,7 @@ type c21World struct {
 	sets      [][]*trienode.MergedNodeSet // sets[i][j+1]: node set of the transition state j -> state i (j = -1: from the empty state)
 	setHashes [][]map[common.Hash]bool
 	steps     [][][]*trienode.MergedNodeSet // sets[i][j+1] split into consecutive Update calls (see c21Split)
+	kids      map[common.Hash][]common.Hash // children of a node: hash references inside the blob + the storage root of an account leaf
 	store     *c21Store
 
 	// outcome counters
@@ -261,7 +262,7 @@ func c21Split(set *trienode.MergedNodeSet) []*trienode.MergedNodeSet {
 }
 
 func c21NewWorld(n int) (*c21World, error) {
-	w := &c21World{states: c21Family[:n], ids: map[common.Hash]int{}, store: &c21Store{m: map[common.Hash][]byte{}}}
+	w := &c21World{states: c21Family[:n], ids: map[common.Hash]int{}, kids: map[common.Hash][]common.Hash{}, store: &c21Store{m: map[common.Hash][]byte{}}}
 	// storage roots (plain tries built from scratch)
 	for _, slots := range c21Storages {
 		st := trie.NewEmpty(w.store)
@@ -293,6 +294,32 @@ func c21NewWorld(n int) (*c21World, error) {
 			}
 		}
 		w.nodes = append(w.nodes, all)
+		for _, sub := range set.Sets {
+			for _, nd := range sub.Nodes {
+				if !nd.IsDeleted() && w.kids[nd.Hash] == nil {
+					kids := []common.Hash{}
+					trie.ForGatherChildren(nd.Blob, func(c common.Hash) { kids = append(kids, c) })
+					w.kids[nd.Hash] = kids
+				}
+			}
+		}
+		if acc := set.Sets[common.Hash{}]; acc != nil {
+			for _, leaf := range acc.Leaves {
+				var a types.StateAccount
+				if err := rlp.DecodeBytes(leaf.Blob, &a); err != nil {
+					return nil, err
+				}
+				if a.Root != types.EmptyRootHash {
+					dup := false
+					for _, c := range w.kids[leaf.Parent] {
+						dup = dup || c == a.Root
+					}
+					if !dup {
+						w.kids[leaf.Parent] = append(w.kids[leaf.Parent], a.Root)
+					}
+				}
+			}
+		}
 		w.sets[i] = make([]*trienode.MergedNodeSet, n+1)
 		w.sets[i][0] = set
 	}
@@ -349,6 +376,8 @@ func (o c21Op) name() string {
 	switch o.kind {
 	case "upE":
 		return fmt.Sprintf("Update(T%d<-empty)+Ref", o.i)
+	case "upN":
+		return fmt.Sprintf("Update(T%d<-empty)", o.i)
 	case "upH":
 		return fmt.Sprintf("Update(T%d<-head)+Ref", o.i)
 	case "upP":
@@ -390,10 +419,18 @@ func c21Ops(n int, allParents bool) []c21Op {
 		}
 	}
 	for i := 0; i < n; i++ {
+		if allParents || i == 0 || i == 2 { // quick: the un-referenced Update only for T0 and T2
+			ops = append(ops, c21Op{kind: "upN", i: i})
+		}
+	}
+	for i := 0; i < n; i++ {
 		ops = append(ops, c21Op{kind: "deref", i: i})
 	}
 	for i := 0; i < n; i++ {
-		ops = append(ops, c21Op{kind: "ref", i: i})
+		// quick: the bare Reference only for T0 and T2 (Update(Ti<-empty)+Ref on a held root adds a reference for the others)
+		if allParents || i == 0 || i == 2 {
+			ops = append(ops, c21Op{kind: "ref", i: i})
+		}
 	}
 	ops = append(ops, c21Op{kind: "cap0"}, c21Op{kind: "capOne"}, c21Op{kind: "capHalf"}, c21Op{kind: "capSize"})
 	for i := 0; i < n; i++ {
@@ -417,35 +454,43 @@ type c21Sys struct {
 	lastKey   string
 	r         *mc.R
 	names     []string // operations applied so far
-	partial   bool     // a Cap with an intermediate limit is part of the history
-	dead      bool     // a violation was reported for this history: do not extend it
+	pending   []bool   // model: root was Update'd without a Reference and not dereferenced since (kept until Dereference)
+	explore   string   // name of the exploration (for replay descriptors)
+	// orphans: cached nodes one of whose parents was flushed by a Cap while the node itself
+	// stayed cached (the flushed parent was older than the child it references). Cap does not
+	// release the reference the flushed parent holds, and nothing cascades to the child any
+	// more. This is the exact precondition of the registered finding garbage-after-partial-cap.
+	orphans map[common.Hash]bool
 }
 
 func c21NewSys(r *mc.R, w *c21World, ops []c21Op) *c21Sys {
 	disk := rawdb.NewMemoryDatabase()
-	return &c21Sys{r: r, w: w, ops: ops, disk: disk, db: New(disk, nil), cnt: make([]int, len(w.states)), committed: make([]bool, len(w.states)), head: -1}
+	return &c21Sys{r: r, w: w, ops: ops, disk: disk, db: New(disk, nil), cnt: make([]int, len(w.states)), committed: make([]bool, len(w.states)), head: -1,
+		pending: make([]bool, len(w.states)), explore: c21ExploreName, orphans: map[common.Hash]bool{}}
 }
 
-func (s *c21Sys) live(i int) bool { return s.cnt[i] > 0 || s.committed[i] }
+func (s *c21Sys) live(i int) bool { return s.cnt[i] > 0 || s.committed[i] || s.pending[i] }
+
+// holds reports whether root i keeps its nodes in the cache (a reference, or an Update that was not dereferenced yet).
+func (s *c21Sys) holds(i int) bool { return s.cnt[i] > 0 || s.pending[i] }
 
 func (s *c21Sys) Enabled(op int) bool {
-	if s.dead {
-		return false
-	}
 	o := s.ops[op]
 	switch o.kind {
 	case "upE":
 		return s.cnt[o.i] < c21MaxRef
+	case "upN":
+		return s.cnt[o.i] == 0 && !s.pending[o.i]
 	case "upH":
 		return s.cnt[o.i] < c21MaxRef && s.head >= 0 && s.head != o.i && s.live(s.head)
 	case "upP":
 		return s.cnt[o.i] < c21MaxRef && s.live(o.j)
 	case "ref":
-		return s.cnt[o.i] > 0 && s.cnt[o.i] < c21MaxRef
+		return s.holds(o.i) && s.cnt[o.i] < c21MaxRef
 	case "deref":
-		return s.cnt[o.i] > 0
+		return s.holds(o.i)
 	case "commit":
-		return s.cnt[o.i] > 0
+		return s.holds(o.i)
 	case "capOne", "capHalf", "capSize":
 		return len(s.db.dirties) > 0
 	}
@@ -675,27 +720,87 @@ func (s *c21Sys) walk(root common.Hash) (c21State, error) {
 
 // checkNoGarbage: every cached node is reachable from a root that still holds a
 // reference; in particular the cache is empty when no references are left.
-func (s *c21Sys) checkNoGarbage(post *c21Snap) error {
-	anyRef := false
-	for i := range s.cnt {
-		if s.cnt[i] > 0 {
-			anyRef = true
-		}
-	}
-	for _, h := range post.flush {
+// garbage returns the cached nodes that no holding root (reference, or Update not yet
+// dereferenced) reaches.
+func (s *c21Sys) garbage(flush []common.Hash, holds []bool) []common.Hash {
+	var out []common.Hash
+	for _, h := range flush {
 		ok := false
-		for i := range s.cnt {
-			if s.cnt[i] > 0 && s.w.nodes[i][h] {
+		for i := range holds {
+			if holds[i] && s.w.nodes[i][h] {
 				ok = true
 				break
 			}
 		}
 		if !ok {
-			if !anyRef {
+			out = append(out, h)
+		}
+	}
+	return out
+}
+
+// checkNoGarbage: every cached node is reachable from a root that still holds it; in
+// particular the cache is empty (Size()==0 follows from the size check) when nothing is
+// held any more. The only cached garbage that is reported under the separate key class
+// garbage-after-partial-cap is the one explained exactly by that finding's precondition:
+// an orphan (a parent of it was flushed by Cap while it stayed cached) or a node below an
+// orphan. It is reported when it appears; the history is explored further with the
+// oracle unchanged for all other nodes.
+func (s *c21Sys) checkNoGarbage(o c21Op, pre, post *c21Snap, holdsBefore []bool) error {
+	holds := make([]bool, len(s.cnt))
+	anyHold := false
+	for i := range s.cnt {
+		holds[i] = s.holds(i)
+		anyHold = anyHold || holds[i]
+	}
+	garbage := s.garbage(post.flush, holds)
+	if len(garbage) == 0 {
+		return nil
+	}
+	excused := map[common.Hash]bool{}
+	var mark func(h common.Hash)
+	mark = func(h common.Hash) {
+		if excused[h] {
+			return
+		}
+		if _, cached := s.db.dirties[h]; !cached {
+			return
+		}
+		excused[h] = true
+		for _, c := range s.w.kids[h] {
+			mark(c)
+		}
+	}
+	for h := range s.orphans {
+		mark(h)
+	}
+	for _, h := range garbage {
+		if !excused[h] {
+			if !anyHold {
 				return fmt.Errorf("garbage-kept: all references are gone but dirties still holds %s (parents=%d); dirties=%s", s.nm(h), s.db.dirties[h].parents, s.nms(post.flush))
 			}
-			return fmt.Errorf("garbage-kept: cached node %s (parents=%d) is reachable from no referenced root (refs=%v); dirties=%s", s.nm(h), s.db.dirties[h].parents, s.cnt, s.nms(post.flush))
+			return fmt.Errorf("garbage-kept: cached node %s (parents=%d) is reachable from no referenced root (refs=%v pending=%v); dirties=%s", s.nm(h), s.db.dirties[h].parents, s.cnt, s.pending, s.nms(post.flush))
 		}
+	}
+	// all garbage is explained by orphaning: report it when it is new
+	was := map[common.Hash]bool{}
+	for _, h := range s.garbage(pre.flush, holdsBefore) {
+		was[h] = true
+	}
+	fresh := false
+	for _, h := range garbage {
+		fresh = fresh || !was[h]
+	}
+	if fresh {
+		s.w.nLeak.Add(1)
+		if s.r != nil {
+			names := append([]string{}, s.names...)
+			s.r.Violation("garbage-after-partial-cap:"+s.explore+":"+strings.Join(names, ";"),
+				fmt.Sprintf("at op %s: cached garbage %s is left below nodes orphaned by Cap (a flushed parent was older than the child it references); refs=%v dirties=%s", o.name(), s.nms(garbage), s.cnt, s.nms(post.flush)),
+				map[string]any{"explore": s.explore, "ops": names})
+			return nil
+		}
+		return fmt.Errorf("garbage-after-partial-cap: cached garbage %s left below nodes orphaned by Cap; dirties=%s", s.nms(garbage), s.nms(post.flush))
 	}
 	return nil
 }
@@ -719,9 +824,6 @@ func (s *c21Sys) Apply(op int) error {
 	copy(mk[:], memo[:16])
 	_, known := s.w.validated.Load(mk)
 	s.names = append(s.names, s.ops[op].name())
-	if k := s.ops[op].kind; k == "capOne" || k == "capHalf" {
-		s.partial = true
-	}
 	err := s.apply(op, !known)
 	s.lastKey = s.computeKey()
 	if err == nil && !known {
@@ -745,8 +847,12 @@ func (s *c21Sys) apply(op int, check bool) error {
 	}
 	diskMayChange := false
 	var limit int
+	holdsBefore := make([]bool, len(s.cnt))
+	for i := range s.cnt {
+		holdsBefore[i] = s.holds(i)
+	}
 	switch o.kind {
-	case "upE", "upH", "upP":
+	case "upE", "upH", "upP", "upN":
 		j := -1
 		if o.kind == "upH" {
 			j = s.head
@@ -769,8 +875,13 @@ func (s *c21Sys) apply(op int, check bool) error {
 				return fmt.Errorf("Update: %v", err)
 			}
 		}
-		s.db.Reference(w.roots[o.i], common.Hash{})
-		s.cnt[o.i]++
+		if o.kind == "upN" {
+			s.pending[o.i] = true
+		} else {
+			s.db.Reference(w.roots[o.i], common.Hash{})
+			s.cnt[o.i]++
+			s.pending[o.i] = false
+		}
 		s.head = o.i
 	case "ref":
 		if _, in := s.db.dirties[w.roots[o.i]]; check && !in {
@@ -778,18 +889,24 @@ func (s *c21Sys) apply(op int, check bool) error {
 		}
 		s.db.Reference(w.roots[o.i], common.Hash{})
 		s.cnt[o.i]++
+		s.pending[o.i] = false
 	case "deref":
 		if _, in := s.db.dirties[w.roots[o.i]]; check && !in {
 			w.nDerefNoop.Add(1)
 		}
 		s.db.Dereference(w.roots[o.i])
-		s.cnt[o.i]--
+		if s.cnt[o.i] > 0 {
+			s.cnt[o.i]--
+		} else {
+			s.pending[o.i] = false
+		}
 	case "commit":
 		diskMayChange = true
 		if err := s.db.Commit(w.roots[o.i], false); err != nil {
 			return fmt.Errorf("Commit: %v", err)
 		}
 		s.committed[o.i] = true
+		s.pending[o.i] = false
 	case "cap0", "capOne", "capHalf", "capSize":
 		diskMayChange = true
 		switch o.kind {
@@ -802,8 +919,28 @@ func (s *c21Sys) apply(op int, check bool) error {
 		case "capSize":
 			limit = pre.total
 		}
+		before := make([]common.Hash, 0, len(s.db.dirties))
+		for h := range s.db.dirties {
+			before = append(before, h)
+		}
 		if err := s.db.Cap(common.StorageSize(limit)); err != nil {
 			return fmt.Errorf("Cap: %v", err)
+		}
+		// a flushed node whose child stays cached leaves that child orphaned
+		for _, h := range before {
+			if _, still := s.db.dirties[h]; still {
+				continue
+			}
+			for _, c := range w.kids[h] {
+				if _, cached := s.db.dirties[c]; cached {
+					s.orphans[c] = true
+				}
+			}
+		}
+	}
+	for h := range s.orphans {
+		if _, cached := s.db.dirties[h]; !cached {
+			delete(s.orphans, h)
 		}
 	}
 	if !check {
@@ -824,7 +961,7 @@ func (s *c21Sys) apply(op int, check bool) error {
 	}
 	// op specific effects on the cache
 	switch o.kind {
-	case "upE", "upH", "upP":
+	case "upE", "upH", "upP", "upN":
 		if len(post.flush) < len(pre.flush) || !c21EqualHashes(post.flush[:len(pre.flush)], pre.flush) {
 			return fmt.Errorf("Update changed existing flush-list entries: %s -> %s", s.nms(pre.flush), s.nms(post.flush))
 		}
@@ -888,21 +1025,7 @@ func (s *c21Sys) apply(op int, check bool) error {
 	if err := s.checkLive(); err != nil {
 		return err
 	}
-	if err := s.checkNoGarbage(post); err != nil {
-		// Cached garbage in a history that contains a Cap with an intermediate limit is
-		// reported under its own key class (same replay descriptor), so that this one
-		// class can be told apart from every other violation; the history is not extended.
-		if s.partial && s.r != nil {
-			names := append([]string{}, s.names...)
-			s.r.Violation("garbage-after-partial-cap:"+strings.Join(names, ";"), "at op "+o.name()+": "+err.Error(),
-				map[string]any{"explore": c21ExploreName, "ops": names})
-			s.w.nLeak.Add(1)
-			s.dead = true
-			return nil
-		}
-		return err
-	}
-	return nil
+	return s.checkNoGarbage(o, pre, post, holdsBefore)
 }
 
 func c21EqualHashes(a, b []common.Hash) bool {
@@ -941,8 +1064,19 @@ func (s *c21Sys) computeKey() string {
 		if s.committed[i] {
 			b.WriteByte('c')
 		}
+		if s.pending[i] {
+			b.WriteByte('p')
+		}
 	}
 	fmt.Fprintf(&b, "h%d|", s.head)
+	if len(s.orphans) > 0 {
+		var or []int
+		for h := range s.orphans {
+			or = append(or, s.w.ids[h])
+		}
+		sort.Ints(or)
+		fmt.Fprintf(&b, "o%v|", or)
+	}
 	for h := s.db.oldest; h != (common.Hash{}); {
 		n := s.db.dirties[h]
 		if n == nil {
@@ -978,7 +1112,7 @@ func TestVerif_C21(t *testing.T) {
 		nStates := mc.Pick(r, 5, 6)
 		depth := mc.Pick(r, 5, 6)
 		allParents := mc.Pick(r, false, true)
-		r.Rule("BFS over operation sequences on one hashdb.Database over memorydb; alphabet = Update(Ti<-empty)+Reference(Ti,{}) and Update(Ti<-head)+Reference " +
+		r.Rule("BFS over operation sequences on one hashdb.Database over memorydb (from the empty database and from a start state with T0 referenced and half flushed by Cap); alphabet = Update(Ti<-empty)+Reference(Ti,{}), Update(Ti<-empty) without Reference, Update(Ti<-head)+Reference " +
 			"(thorough: Update(Ti<-Tj) for every live Tj) with the real node sets of the state transition (account trie with leaves + storage tries, external storage-root references), " +
 			"Reference(Ti,{}), Dereference(Ti), Cap(0 | size-1 | size/2 | size), Commit(Ti); a state = (reference count per root, committed roots, head) + white-box fingerprint " +
 			"(flush-list order with parents count and external children per cached node, set of nodes on disk)")
@@ -989,7 +1123,7 @@ func TestVerif_C21(t *testing.T) {
 		r.Assume("family: 3 accounts (A,B under one sub-branch, C sibling) x 3 storage tries over 3 slots sharing a sub-branch / leaves; all nodes are hashed nodes; " +
 			"node sets are produced by the real trie code from a parent state that the model says is readable (referenced or committed), like StateDB.Commit does")
 		r.Assume("reference model = References minus Dereferences per root + committed set; expected node set of a state = nodes of its from-scratch trie commit (trie package), independent of hashdb")
-		r.Assume("API contract: Dereference / Commit / extra Reference only on roots with a positive reference count; every Update is immediately followed by Reference(root,{}) as in core.BlockChain; no clean cache")
+		r.Assume("API contract: Dereference / Commit / extra Reference only on roots that hold a reference or were Update'd and not dereferenced since; no clean cache")
 		w, err := c21NewWorld(nStates)
 		if err != nil {
 			r.HarnessError("cannot build the state family: " + err.Error())
@@ -1001,12 +1135,49 @@ func TestVerif_C21(t *testing.T) {
 		for i, o := range ops {
 			names[i] = o.name()
 		}
-		r.Explore(mc.Config{
-			Name:  c21ExploreName,
-			Ops:   names,
-			Depth: depth,
-			New:   func() mc.Sys { return c21NewSys(r, w, ops) },
-		})
+		type explo struct {
+			name   string
+			prefix []string
+			depth  int
+		}
+		for _, e := range []explo{
+			{c21ExploreName, nil, depth},
+			// pre-populated start state: T0 referenced, the older half of its nodes (children first) flushed
+			// by Cap while their parents stay cached; re-inserting such a child is one Update away
+			{c21ExploreName + "@T0-half-capped", []string{"Update(T0<-empty)+Ref", "Cap(size/2)"}, depth - 1},
+		} {
+			if r.Expired() {
+				break
+			}
+			e := e
+			r.Explore(mc.Config{
+				Name:  e.name,
+				Ops:   names,
+				Depth: e.depth,
+				New: func() mc.Sys {
+					s := c21NewSys(r, w, ops)
+					s.explore = e.name
+					for _, name := range e.prefix {
+						op := -1
+						for i, n := range names {
+							if n == name {
+								op = i
+							}
+						}
+						if op < 0 || !s.Enabled(op) {
+							r.HarnessError("prefix op " + name + " unknown or not enabled")
+							break
+						}
+						if err := s.Apply(op); err != nil {
+							r.HarnessError("prefix op " + name + ": " + err.Error())
+							break
+						}
+					}
+					s.names = nil
+					return s
+				},
+			})
+		}
 		r.OutcomeN("dereference_collected_nodes", w.nGC.Load())
 		r.OutcomeN("dereference_of_uncached_root", w.nDerefNoop.Load())
 		r.OutcomeN("reference_of_uncached_root", w.nRefNoop.Load())
